@@ -601,8 +601,8 @@ impl Property for C01 {
     }
     fn budget(&self, tier: Tier) -> (u32, usize) {
         match tier {
-            Tier::Quick => (4_000, 8),
-            Tier::Thorough => (150_000, 16),
+            Tier::Quick => (80_000, 8),
+            Tier::Thorough => (2_000_000, 16),
         }
     }
     fn run(&self, case: &BhCase) -> Report {
@@ -638,8 +638,8 @@ impl Property for C07 {
     }
     fn budget(&self, tier: Tier) -> (u32, usize) {
         match tier {
-            Tier::Quick => (4_000, 8),
-            Tier::Thorough => (150_000, 16),
+            Tier::Quick => (80_000, 8),
+            Tier::Thorough => (2_000_000, 16),
         }
     }
     fn run(&self, case: &BhCase) -> Report {
